@@ -1,6 +1,7 @@
 import Pms.Lemmas.BooSph
 import Mathlib.Analysis.SpecialFunctions.Exponential
 import Mathlib.Algebra.BigOperators.Intervals
+import Mathlib.Algebra.BigOperators.Field
 
 /-!
 Unsöld's identity for the C08 spherical harmonics, l ≤ 12:  Σ_{m=−l}^{l} |Y_lm(θ, φ)|² = (2l+1)/(4π).
@@ -82,7 +83,9 @@ theorem ev_unsoldPoly (x : ℝ) (l : ℕ) :
   have h1 : ev x [1, 0, -1] = 1 - x ^ 2 := by
     simp only [ev_cons, ev_nil]; push_cast; ring
   rw [h1]
-  by_cases hk : k = 0 <;> simp [hk] <;> ring
+  by_cases hk : k = 0
+  · subst hk; simp only [↓reduceIte]; push_cast; ring
+  · simp only [hk, ↓reduceIte]; push_cast; ring
 
 theorem normSq_nonneg' (l k : ℕ) : (0 : ℝ) ≤ ((normSq l k : ℚ) : ℝ) := by
   have : (0 : ℚ) ≤ normSq l k := by unfold normSq; positivity
@@ -152,6 +155,5 @@ theorem unsold_Y (l : ℕ) (hl : l ∈ List.range 13) (θ φ : ℝ) :
   rw [this, ← hev]
   push_cast
   field_simp
-  ring
 
 end Pms.Boo
